@@ -14,7 +14,7 @@ CHECKS = {
          "trusts rustc/std f64 rem_euclid for the exact residue", PBT + " with f64 reference model, metamorphic scaling, boundary-value and exhaustive f32 enumeration"),
  "C13": ("exploration", "Generated obstacle sets (0..200 boxes / posed polygons incl. duplicates and shared centres) x leaf sizes x rays: BVH answer must equal testing every element and build must terminate (worker process + watchdog); polygon/ray answers must match an exact f64 reference outside a 1 mm band; bounding boxes contain all corners; reveal quads of set-back windows must coincide with first-principles quads. Thorough tier only: a libFuzzer campaign over bytes decoded into boxes on a 1 cm grid with exact duplicates, leaf size and rays, with the BVH-vs-exhaustive oracle inside the target.",
          "trusts rustc/std f64, proptest RNG/shrinker; oracle geometry written independently in f64", PBT + " with differential oracle (BVH vs exhaustive) and exact f64 reference geometry; coverage-guided fuzzing (libFuzzer via cargo-fuzz, arbitrary::Unstructured decoding) in the thorough tier"),
- "C20": ("exploration", "All 365 dates (exhaustive); latitude x declination x hour-angle grid + random points against unit-vector spherical astronomy (directions, incidence angles, convention ties with the model's normals); radiation identities on random inputs and all 8760 hours of the shipped weather file; all 32 zones x 9 classes x 12 months and July-day tables (exhaustive) incl. D3 against the shipped file.",
+ "C20": ("exploration", "All 365 dates (exhaustive); latitude x declination x hour-angle grid + random points against unit-vector spherical astronomy (directions, incidence angles, convention ties with the model's normals), plus surfaces that face the sun of each grid point exactly or within 0.002 degrees; radiation identities on random inputs and all 8760 hours of the shipped weather file; all 32 zones x 9 classes x 12 months and July-day tables (exhaustive) incl. D3 against the shipped file.",
          "the shipped zonaD3.met is the source of the D3 tables; trusts rustc/std f64 trigonometry", PBT + " + exhaustive enumeration (dates, table cells, weather-file hours) against an f64 astronomical reference"),
 }
 # filled in as the remaining properties get their checks
